@@ -37,6 +37,8 @@ class Raised:
 def _engine_fault(e):
     """a TypeError/AttributeError/... raised from inside the engine's own files means the code
     left the modelled subset; it must not be mistaken for an exception of the code under test"""
+    if getattr(e, "_sx_model", False):
+        return False
     if not isinstance(e, (TypeError, AttributeError, NotImplementedError, AssertionError, NameError, KeyError,
                           RecursionError)):
         return False
@@ -319,47 +321,7 @@ class ConcEnv(_EnvBase):
         return a if c else b
 
 
-def _eq_term(a, b):
-    """z3 Bool / python bool: a == b, recursively through tuples/lists, without forking"""
-    if isinstance(a, (list, tuple)) and isinstance(b, (list, tuple)):
-        if len(a) != len(b):
-            return False
-        cs = [_eq_term(x, y) for x, y in zip(a, b)]
-        if any(c is False for c in cs):
-            return False
-        cs = [z3bool(c) if not isinstance(c, bool) else None for c in cs]
-        cs = [c for c in cs if c is not None]
-        return z3.And(*cs) if cs else True
-    if isinstance(a, dict) and isinstance(b, dict):
-        if set(map(str, a.keys())) != set(map(str, b.keys())) or any(is_sym(k) for k in list(a) + list(b)):
-            if any(is_sym(k) for k in list(a) + list(b)):
-                raise Unsupported("dict with symbolic keys in result comparison")
-            return False
-        return _eq_term([a[k] for k in a], [b[k] for k in a])
-    if isinstance(a, (SxBytes, SxStr, SxChar)) or isinstance(b, (SxBytes, SxStr, SxChar)):
-        if isinstance(a, (bytes, str)):
-            a, b = b, a
-        if isinstance(a, SxChar):
-            a = SxStr([a])
-        if isinstance(a, SxBytes) and not isinstance(b, (bytes, bytearray, SxBytes)):
-            return False
-        if isinstance(a, SxStr) and not isinstance(b, (str, SxStr, SxChar)):
-            return False
-        e = z3.simplify(a.eq_expr(b))
-        return True if z3.is_true(e) else False if z3.is_false(e) else e
-    if isinstance(a, (SxInt, SxBool)) or isinstance(b, (SxInt, SxBool)):
-        if isinstance(a, bool) or isinstance(b, bool) or isinstance(a, SxBool) or isinstance(b, SxBool):
-            if isinstance(a, (bool, SxBool)) and isinstance(b, (bool, SxBool)):
-                e = z3.simplify(z3bool(a) == z3bool(b))
-                return True if z3.is_true(e) else False if z3.is_false(e) else e
-            return False
-        if not isinstance(a, (int, SxInt)) or not isinstance(b, (int, SxInt)):
-            return False
-        r = (a == b)
-        return r if isinstance(r, bool) else r.e
-    if type(a) is not type(b) and not (isinstance(a, (int, float)) and isinstance(b, (int, float))):
-        return False
-    return bool(a == b)
+from .values import eq_term as _eq_term
 
 
 # ------------------------------------------------------------------------------------------------
